@@ -40,8 +40,17 @@ use vcommon::{catch, fmt_outcome, fmt_result, payload};
 const SESSION: i32 = 11;
 const STREAM: i32 = 22;
 
-fn harness_rv(_b: AtomicBuffer, off: Index, flen: Index) -> i64 {
-    off as i64 * 1000003 + flen as i64 * 7 + 1
+// the reserved-value supplier of harness/c04/src/hist.rs (Model/Publication.v harness_rv): position part + checksum of the payload
+fn harness_rv(b: AtomicBuffer, off: Index, flen: Index) -> i64 {
+    let mut sum: i64 = 0;
+    let mut i: i64 = 1;
+    let mut at = off + 32;
+    while at < off + flen {
+        sum = sum.wrapping_add(i.wrapping_mul(b.get::<u8>(at) as i64));
+        i += 1;
+        at += 1;
+    }
+    (off as i64 * 1000003 + flen as i64 * 7 + 1).wrapping_add(sum)
 }
 
 fn image_error_handler(_e: AeronError) {}
